@@ -386,6 +386,20 @@ def _uncovered_ok(fm: FuncModel, U: str, cur: str) -> str | None:
     """The uncovered list starts as a copy of all minimal traps and shrinks only by removing the space of an
     expanded minimal node."""
     f = fm.f
+    # it starts as (a copy of) the complete list: a trap space that already has a node may still be a stub there
+    for n in own_walk(f.node):
+        if isinstance(n, (ast.Assign, ast.AnnAssign)) and n.value is not None and text(n.targets[0] if isinstance(n, ast.Assign) else n.target) == U:
+            v = n.value
+            if isinstance(v, ast.ListComp) and any(g_.ifs for g_ in v.generators):
+                return (f"line {n.lineno}: the list of minimal trap spaces still to be found starts filtered "
+                        f"(`{text(v.generators[0].ifs[0])[:60]}`): a minimal trap space that is left out is never searched for, and "
+                        f"the expansion reports completion without it being an expanded node")
+            try:
+                ok_, why_ = _trap_list_origin(fm.prog if hasattr(fm, "prog") else None, fm, v, fm.cfgn(n), 0)
+            except Exception:  # noqa
+                ok_, why_ = True, ""
+            if not ok_:
+                return f"line {n.lineno}: the list of minimal trap spaces still to be found does not start as the complete list ({why_})"
     for n in own_walk(f.node):
         if isinstance(n, ast.Call) and isinstance(n.func, ast.Attribute) and text(n.func.value) == U:
             if n.func.attr == "remove":
@@ -828,7 +842,7 @@ def skip_edges(ck: Check, rule: str) -> None:
                             tl_ok = _trap_list_origin(prog, fm, ast.Name(T, ast.Load()), e.cfgn, 0)[0] if T.isidentifier() else False
                         except AnalysisError:
                             tl_ok = False
-                        if tl_ok and logic.implies(pc, want):
+                        if tl_ok and trap_list_joined() and logic.implies(pc, want):
                             ev_ok = True
                 if a[0] == "b" and a[1].startswith("eq:") and f"[{space}]" in a[1]:
                     T = a[1][3:].replace(f"[{space}]", "").strip("|")       # T == [space]
@@ -836,7 +850,7 @@ def skip_edges(ck: Check, rule: str) -> None:
                         tl_ok = _trap_list_origin(prog, fm, ast.Name(T, ast.Load()), e.cfgn, 0)[0] if T.isidentifier() else False
                     except AnalysisError:
                         tl_ok = False
-                    if tl_ok and logic.implies(pc, ("atom", a)):
+                    if tl_ok and trap_list_joined() and logic.implies(pc, ("atom", a)):
                         ev_ok = True
                 if a[0] == "b" and a[1] == f"T:node_is_minimal({e.nid})" and logic.implies(pc, ("atom", a)):
                     ev_ok = True
@@ -849,10 +863,34 @@ def skip_edges(ck: Check, rule: str) -> None:
                   key=f"declared minimal: {e.nid}")
 
 
+_TLO_TRACE: list = []
+
+
 def _trap_list_origin(prog, fm: FuncModel, e: ast.AST, at, depth: int, filters: list | None = None) -> tuple[bool, str]:
     """e is (a map `space | x` over / a list of pairs built from) the result of trappist(problem='min') without limits.
     Pure filters `[x for x in T if c(x)]` on the way are collected in `filters` as (condition, target) when the caller
     can account for them; otherwise they are refused."""
+    if depth == 0:
+        _TLO_TRACE.clear()
+        r = _trap_list_origin_(prog, fm, e, at, 0, filters)
+        if r[0]:
+            # the spaces of the reduced net are completed with the space of the very node whose net was solved
+            nets = {x[1] for x in _TLO_TRACE if x[0] == "net"}
+            joins = [x[1] for x in _TLO_TRACE if x[0] == "join"]
+            for j in joins:
+                if not any(j.startswith("FIELD<") and j.endswith("|space>") and f"|{n_}|" in j for n_ in nets):
+                    return False, (f"the trap spaces of the net of node `{', '.join(sorted(nets))}` are completed with `{j}`, not with "
+                                   f"that node's space")
+        return r
+    return _trap_list_origin_(prog, fm, e, at, depth, filters)
+
+
+def trap_list_joined() -> bool:
+    """did the last top-level origin query pass a join with a node space?"""
+    return any(x[0] == "join" for x in _TLO_TRACE)
+
+
+def _trap_list_origin_(prog, fm: FuncModel, e: ast.AST, at, depth: int, filters: list | None = None) -> tuple[bool, str]:
     if depth > 6:
         return False, "origin too indirect"
     if isinstance(e, ast.Name):
@@ -914,6 +952,15 @@ def _trap_list_origin(prog, fm: FuncModel, e: ast.AST, at, depth: int, filters: 
             any(isinstance(x, ast.Name) and x.id == g0.target.id for x in elt.elts)
         if not paired and not (isinstance(elt, ast.BinOp) and isinstance(elt.op, ast.BitOr)):
             return False, f"elements `{text(elt)}` are not joined with the enclosing space"
+        if not paired and isinstance(g0.target, ast.Name):
+            sides = [elt.left, elt.right]
+            oth = [x for x in sides if not (isinstance(x, ast.Name) and x.id == g0.target.id)]
+            if len(oth) != 1:
+                return False, f"elements `{text(elt)}` are not joined with the enclosing space"
+            try:
+                _TLO_TRACE.append(("join", fm.key(oth[0], at if hasattr(at, "id") else fm.cfgn(e))))
+            except AnalysisError:
+                _TLO_TRACE.append(("join", text(oth[0])))
         return _trap_list_origin(prog, fm, e.generators[0].iter, at, depth + 1)
     if isinstance(e, ast.Call) and callee_name(e) == "trappist":
         kws = {k.arg: k.value for k in e.keywords}
@@ -927,6 +974,11 @@ def _trap_list_origin(prog, fm: FuncModel, e: ast.AST, at, depth: int, filters: 
         sd_ = fm.single_def(net.id, at) if isinstance(net, ast.Name) else None
         if not (sd_ and isinstance(sd_[1], ast.Call) and callee_name(sd_[1]) in ("node_percolated_petri_net", "node_percolated_network")):
             return False, f"minimal trap spaces computed on `{text(net)}`, not on a node's percolated net"
+        if sd_[1].args:
+            try:
+                _TLO_TRACE.append(("net", fm.key(sd_[1].args[0], sd_[0])))
+            except AnalysisError:
+                _TLO_TRACE.append(("net", text(sd_[1].args[0])))
         return True, ""
     return False, f"`{text(e)[:50]}`"
 
